@@ -475,8 +475,11 @@ func slicesEqual(x, y any) (err error) {
 		return
 	}
 
-	if !capLenEqual(xrv.Cap(), yrv.Cap(), xrv.Len(), yrv.Len()) {
-		err = errorf("Slice/array capacity or length mismatch")
+	// only the lengths: the capacity of a slice is
+	// an artifact of how it was allocated, not part
+	// of its value.
+	if xrv.Len() != yrv.Len() {
+		err = errorf("Slice/array length mismatch")
 		return
 	}
 
